@@ -2,6 +2,7 @@ import TrustVerif.Lemmas.StExec
 import TrustVerif.Lemmas.StFrames
 import TrustVerif.Lemmas.StWitness
 import TrustVerif.Lemmas.StExtFrames
+import TrustVerif.Lemmas.StNoPanic
 
 /-!
 # C01 — every scan cycle ends in success or a value-dependent fault, never a crash
@@ -15,7 +16,8 @@ that the real compiler accepts (replayed by the harness on every run, known_find
 What is proved instead:
 
 * unconditionally, for every program, accepted or not: no call frame is left behind
-  (`c01_frames_balanced`, `c01_frames_every_cycle`);
+  (`c01_frames_balanced`, `c01_frames_every_cycle`, for calls `c01_call_frames_balanced`,
+  `c01_fb_call_frames_balanced`) and no Rust panic site is reachable (`c01_never_panics`);
 * inside the decidable guard `Strict` (Model/C02.lean): every cycle of every run, for all inputs
   and every budget, ends in success or a value-dependent fault, never a static-class error or a
   panic (`c01_progress_partial`, `c01_every_cycle_partial`).
@@ -55,6 +57,17 @@ theorem c01_frames_every_cycle (p : Program) (fuel : Nat) (ins : Inputs) (st : R
     simp only [runFrom]
     rw [cycle_frames]
     exact ih
+
+/-- **The process never panics — every compilable program.**  For every program whose literals
+survive the lowering (typed or not, accepted by the checker or not), every store of well-formed
+values, every budget: the cycle's report is never a Rust panic (the model's panic sites are the
+plain `+ - *` on `i128`/`u128` in `numeric_arith`; everything else is checked arithmetic) and
+the store stays well formed, so this holds at every cycle of every run. -/
+theorem c01_never_panics (p : Program) (hl : p.body.lowerable = true) (fuel : Nat) (st : RunState)
+    (hσ : StoreWF st.store) :
+    StoreWF (cycle .real p fuel st).1.store ∧
+    ∀ s, (cycle .real p fuel st).2 = some s → s.isPanic = false :=
+  cycle_nopanic p hl fuel st hσ
 
 /-- **Progress, one cycle, inside the guard.**  For every program in `Strict`, every well-typed
 store, every budget: the cycle completes or reports a value-dependent fault — never a
